@@ -3,6 +3,7 @@ package main
 // Verification-condition context: symbolic state, heaps, fresh names, obligations.
 
 import (
+	"os"
 	"fmt"
 	"go/types"
 	"sort"
@@ -610,7 +611,18 @@ func (vc *VC) queryFor(o *Obligation) string {
 		return o.Cover && (strings.Contains(a, "(forall ") || strings.Contains(a, "(exists "))
 	}
 	var facts strings.Builder
-	for _, a := range vc.asserts[:o.NAssert] {
+	asserts, goal := vc.asserts[:o.NAssert], o.Goal
+	if !o.Cover && os.Getenv("VERIF_NOQINST") == "" {
+		// universal goals: explicit witnesses and hypothesis instances at them (qinst.go)
+		if decls, as2, g2, ok := vc.refineForGoal(asserts, goal); ok {
+			for _, d := range decls {
+				body.WriteString(d)
+				body.WriteByte('\n')
+			}
+			asserts, goal = as2, g2
+		}
+	}
+	for _, a := range asserts {
 		if skipQ(a) {
 			continue
 		}
@@ -619,9 +631,9 @@ func (vc *VC) queryFor(o *Obligation) string {
 		facts.WriteString(")\n")
 	}
 	if o.Cover {
-		fmt.Fprintf(&facts, "(assert %s)\n", o.Goal)
+		fmt.Fprintf(&facts, "(assert %s)\n", goal)
 	} else {
-		fmt.Fprintf(&facts, "(assert (not %s))\n", o.Goal)
+		fmt.Fprintf(&facts, "(assert (not %s))\n", goal)
 	}
 	// symbols used by the facts and the goal: axioms (preamble assertions, global facts) are included
 	// only when they share a declared symbol with them - unrelated quantified axioms slow the solvers
